@@ -113,13 +113,13 @@ var checks = map[string]*Check{
 		LevelText:   "Every sequence of service operations and store up/down events up to the bound is run on the real mcrew Service and bolt file, comparing the in-memory crew with the stored crew after every operation; every schedule (within the deviation bound) of 2-3 concurrent clients is run under the controlled scheduler and its results and final state must equal those of some sequential order.",
 		LevelNote:   "Trusted: bbolt (its internal locks are not scheduling points; a thread blocked there is seen as blocked). Storage failure is modelled as the store being closed / keys bolt rejects / unserialisable bindings, not as torn writes inside bolt.",
 		Assumptions: commonAssumptions},
-	"C11": {ID: "C11", Parts: []Part{{Harness: "core", Func: "C11"}}, Category: "exploration", QuickDeadline: 240, ThoroughDeadline: 1500, CrashIsViolation: true, Workers: 8,
+	"C11": {ID: "C11", Parts: []Part{{Harness: "core", Func: "C11"}, {Harness: "mcrew", Func: "C11mcrew", OneProc: true}}, Category: "exploration", QuickDeadline: 240, ThoroughDeadline: 1500, CrashIsViolation: true, Workers: 8,
 		Engine: "E1", DesignRef: "6/C11",
 		Technique:   "bounded-exhaustive enumeration of looping script shapes x cancellation points (context cancelled at the k-th harness tick, pre-cancelled, pre-expired, real deadlines) x routing x concurrency, with a logical (tick-count) bound on progress after cancellation and a goroutine-leak check by runtime.Stack",
 		LevelText:   "Every combination of looping script shape, position (action/guard), cancellation point, error routing and number of concurrent executions is run on the real interpreter and engine; the call must return, the script must not keep running after its context is done (bounded in ticks, not in milliseconds), the failure must be the timeout error routed like any action error, and no goroutine started for the call may survive it.",
 		LevelNote:   "Only partly within the family: the cancellation point is an enumerated choice, but what happens inside goja between the cancel and the interruption is not under the scheduler's control; 'promptly' is weakened to a tick-count bound and a 90 s horizon. Real deadlines use the real clock.",
 		Assumptions: commonAssumptions},
-	"C10": {ID: "C10", Parts: []Part{{Harness: "core", Func: "C10"}, {Harness: "corec", Func: "C10c", Race: true}}, GoMaxProcs: 1, Category: "exploration", QuickDeadline: 240, ThoroughDeadline: 1500,
+	"C10": {ID: "C10", Parts: []Part{{Harness: "core", Func: "C10"}, {Harness: "corec", Func: "C10c", Race: true}, {Harness: "sio", Func: "C10sio"}}, GoMaxProcs: 1, Category: "exploration", QuickDeadline: 240, ThoroughDeadline: 1500,
 		Engine: "E1+E2", DesignRef: "6/C10",
 		Technique:   "bounded-exhaustive enumeration of (polluter, [polluter,] probe) script sequences with solo-equivalence and caller-snapshot oracles; stateless schedule exploration of concurrent executions of one compiled source (with a race-detector pass)",
 		LevelText:   "Every ordered pair and triple of polluting scripts and probe scripts is executed on the real interpreter (directly and through Spec.Walk, with shared compiled programs and shared caller objects): the probe must observe nothing, the caller's bindings and props must be unchanged.",
@@ -131,25 +131,25 @@ var checks = map[string]*Check{
 		LevelText:   "Every interleaving (within the deviation bound) of 2-3 concurrent walks of distinct machines over one compiled specification, and of walks with concurrent SetSpec calls on an UpdatableSpec, is executed on the real code; each walk must equal its solo result under exactly one version (never a version older than a completed SetSpec), the spec's deep snapshot must not change, and ThreadSanitizer must stay silent. On the mcrew host, client threads issuing process, add and get-spec requests against a Service that has not handed the specification out yet are explored the same way: every caller gets a compiled specification and the result of some sequential order. On the sio host, a Go host that hands one SpecSource object to SetMachine for several machines and crews and edits it between calls: every operation sequence up to the bound and every schedule of a walk against concurrent SetMachine calls - each machine runs exactly the version it was last given, never a mix.",
 		LevelNote:   "Trusted: rt/sched; yield points are placed in actions and guards (the engine code between them runs atomically in a schedule); ThreadSanitizer covers the accesses in between. goja internals are not scheduling points.",
 		Assumptions: commonAssumptions},
-	"C17": {ID: "C17", Parts: []Part{{Harness: "mcrew", Func: "C17mcrew", Race: true}, {Harness: "mcrew", Func: "C17glue", Race: true}, {Harness: "sio", Func: "C17sio", Race: true}}, Category: "model_checking", QuickDeadline: 240, ThoroughDeadline: 1500, GoMaxProcs: 1,
+	"C17": {ID: "C17", Parts: []Part{{Harness: "mcrew", Func: "C17mcrew", Race: true}, {Harness: "mcrew", Func: "C17glue", Race: true}, {Harness: "mcrew", Func: "C17http"}, {Harness: "sio", Func: "C17sio", Race: true}}, Category: "model_checking", QuickDeadline: 240, ThoroughDeadline: 1500, GoMaxProcs: 1,
 		Engine: "E2", DesignRef: "6/C17",
 		Technique:   "stateless schedule exploration (controlled cooperative scheduler over shimmed sync/time, virtual clock, DFS with deviation bounding) of the real timer implementations, with a per-id monitor automaton on every execution",
 		LevelText:   "For every short request scenario (requests before, during - from the firing handler - and after a firing) every schedule of requester, timer goroutines and timer-fire events within the deviation bound is executed on the real Timers code under a controlled scheduler with virtual time; a monitor checks at-most-once, never-early, never-after-successful-cancel, exactly-once at the end of time, pending-set equality and id reuse.",
 		LevelNote:   "Trusted: the scheduler (rt/sched): quiescence by runtime.Stack inspection, channel operations are not choice points (each step issues at most one waking event; counted otherwise). Go's select fairness and real-time effects are outside the model.",
 		Assumptions: commonAssumptions},
-	"C03": {ID: "C03", Harness: "match", Func: "C03", Category: "model_checking", QuickDeadline: 240, ThoroughDeadline: 1500, Race: true,
+	"C03": {ID: "C03", Parts: []Part{{Harness: "match", Func: "C03", Race: true}, {Harness: "core", Func: "C03js"}}, Category: "model_checking", QuickDeadline: 240, ThoroughDeadline: 1500, Race: true,
 		Engine: "E1", DesignRef: "6/C03",
 		Technique:   "bounded-exhaustive input enumeration x deviation-bounded exhaustive exploration of map-iteration orders (every range over a map is an explicit choice point owned by the explorer) with deep argument snapshots; plus a free-running race-detector pass with shared arguments",
 		LevelText:   "For every triple of the space the real matcher is executed under every combination of map-iteration orders with up to k deviating range executions; the result multiset and error outcome must not depend on the order, the arguments must be untouched (deep snapshots), results must be independent maps. A separate -race build matches the same argument objects from three goroutines.",
 		LevelNote:   "Trusted: the range rewrite (vinstr) and vrange.Keys; ThreadSanitizer for the concurrent clause (goroutines share no synchronisation, so the happens-before verdict is schedule independent). Orders of maps with more than 4 keys are not fully enumerated (rotations + reversal).",
 		Assumptions: commonAssumptions},
-	"C02": {ID: "C02", Harness: "match", Func: "C02", Category: "exploration", QuickDeadline: 240, ThoroughDeadline: 1500,
+	"C02": {ID: "C02", Parts: []Part{{Harness: "match", Func: "C02"}, {Harness: "core", Func: "C02step"}}, Category: "exploration", QuickDeadline: 240, ThoroughDeadline: 1500,
 		Engine: "E1", DesignRef: "6/C02",
 		Technique:   "bounded-exhaustive enumeration of (pattern, message) pairs against a reference backtracking enumerator of embeddings, plus exhaustive planting (instantiated pattern + every insertion of distractors up to k)",
 		LevelText:   "Every small pattern/message pair over a two-letter alphabet is matched by the real matcher and by a plain backtracking reference: every embedding must be returned (and nothing else for plain patterns). Deeper: every assignment is planted into the instantiated pattern and buried under every combination of up to k partially-matching distractors; the planted assignment must be found.",
 		LevelNote:   "Trusted: reference enumerator rt/ref/rmatch.Embeddings. Side conditions of the property (arrays as sets, repeated variables scalar, planted array value distinct from constant members) are enforced by the generator; inequality variables are not part of this check.",
 		Assumptions: commonAssumptions},
-	"C13": {ID: "C13", Parts: []Part{{Harness: "core", Func: "C13"}, {Harness: "sio", Func: "C13sio"}, {Harness: "mcrew", Func: "C13mcrew"}, {Harness: "tools", Func: "C13inline"}, {Harness: "msimple", Func: "C13msimple"}, {Harness: "spectool", Func: "C13spectool"}}, Category: "exploration", QuickDeadline: 240, ThoroughDeadline: 1500,
+	"C13": {ID: "C13", Parts: []Part{{Harness: "core", Func: "C13"}, {Harness: "sio", Func: "C13sio"}, {Harness: "mcrew", Func: "C13mcrew"}, {Harness: "tools", Func: "C13inline"}, {Harness: "msimple", Func: "C13msimple"}, {Harness: "spectool", Func: "C13spectool"}, {Harness: "mdb", Func: "C13mdb"}}, Category: "exploration", QuickDeadline: 240, ThoroughDeadline: 1500,
 		Engine: "E1", DesignRef: "6/C13",
 		Technique:   "bounded-exhaustive enumeration of abstract specs x representations x pattern syntaxes x compile variants; differential of complete behaviour trees (all message sequences up to a bound) against the Go-structure rendering",
 		LevelText:   "Every abstract spec of the family is rendered in every supported representation and pattern syntax, compiled once / twice / through a serialise-reload cycle, and its complete behaviour tree over all short message sequences must equal that of the Go-structure rendering; recompilation must not change the spec; unknown interpreters, branching types and pattern syntaxes must be rejected by Compile. The hosts' own loaders (sio.ResolveSpecSource for inline / JSON-file / YAML-file sources, mcrew's Service.GetSpec for YAML files, cmd/msimple's main() for YAML files with and without %inline'd action sources) are driven, and the repository's own converters (spectool yamltojson / jsontoyaml / analyze) are run on a specification under every combination of the error-handling settings: their output must behave like their input; the loaders are driven with a family of specs over patterns of every JSON shape and must give the behaviour of the Go-structure rendering. spectool's editing commands (addMessageBranches, addOrderedOutMessages) over patterns and message lists holding strings, integers, fractions, large numbers, arrays and nested maps: the specification they write must behave like the same edit made on the Go structures (one open finding: the YAML library the repository writes with rounds numbers to float32 precision).",
@@ -185,7 +185,7 @@ var checks = map[string]*Check{
 		LevelText:   "All combinations of a state universe with permanent bindings and an action/guard program list covering every way of returning bindings (and of failing) are executed through Spec.Step with every error-routing setting; whenever a state results every permanent binding must be present and unchanged; no crash. Concurrent part: every interleaving (within the deviation bound) of 2-3 walks of machines with different permanent bindings over one compiled spec whose actions and guards delete and overwrite them; each walk must equal its solo walk.",
 		LevelNote:   "Trusted: action-language renderers. Only the listed programs and states are covered.",
 		Assumptions: commonAssumptions},
-	"C05": {ID: "C05", Harness: "core", Func: "C05", Category: "model_checking", QuickDeadline: 200, ThoroughDeadline: 1500,
+	"C05": {ID: "C05", Parts: []Part{{Harness: "core", Func: "C05"}, {Harness: "sio", Func: "C05sio"}}, Category: "model_checking", QuickDeadline: 200, ThoroughDeadline: 1500,
 		Engine: "E1", DesignRef: "6/C05",
 		Technique:   "explicit enumeration of all histories (spec x start state x message sequence x batch split x limit x breakpoint) on the real Spec.Walk with per-walk invariants, a reference walk and a split differential",
 		LevelText:   "All walks of a finite family of 3-node specifications over all short message histories, every split into batches, a range of step limits and breakpoints are executed on the real Spec.Walk; ordered exactly-once consumption, the step bound, the truthful remainder, chain continuity, quiescence on Done, equality with a reference walk and split-independence are checked on every one.",
@@ -197,7 +197,7 @@ var checks = map[string]*Check{
 		LevelText:   "Every step of the stated finite space of specifications/states/messages is executed on the real Spec.Step (native and ECMAScript actions) and compared with a reference written from the README's Processing section; exhaustive within the vocabulary.",
 		LevelNote:   "Trusted: the reference step rule (rt/ref/rstep), the action-language model (rt/actlang), pattern matching itself (decided by C01/C02). Error wording is not compared (masked).",
 		Assumptions: append([]string{"reference rule rt/ref/rstep.Step; pattern matching inside the reference uses match.Match (its correctness is C01/C02)"}, commonAssumptions...)},
-	"C01": {ID: "C01", Harness: "match", Func: "C01", Category: "exploration", QuickDeadline: 150, ThoroughDeadline: 1500,
+	"C01": {ID: "C01", Parts: []Part{{Harness: "match", Func: "C01"}, {Harness: "core", Func: "C01step"}}, Category: "exploration", QuickDeadline: 150, ThoroughDeadline: 1500,
 		Engine: "E1", DesignRef: "6/C01",
 		Technique:   "bounded-exhaustive enumeration of (pattern, message, bindings) triples against a reference containment relation (explicit enumeration, no sampling)",
 		LevelText:   "Every triple of the stated finite space is executed on the real match.Match and every returned binding set is checked against an independent containment relation; exhaustive within the size bounds, nothing beyond them.",
